@@ -271,6 +271,12 @@ func decorations(op *Op, withArgs bool) []Dec {
 			}
 		}
 	}
+	// negative number literals, in the operation and inside fragments
+	for i := range negMenu {
+		for _, f := range negForms {
+			out = append(out, Dec{Kind: "neg", Val: i, Form: f})
+		}
+	}
 	// the same literal at two positions of similar types, both orders
 	for i := range twinMenu {
 		out = append(out, Dec{Kind: "twin", Val: i, Form: "fwd"}, Dec{Kind: "twin", Val: i, Form: "rev"})
@@ -498,6 +504,30 @@ func singleDecorations(op *Op) []Dec {
 // alias (`x: x`), the copy directly behind it / in an inline fragment / in a named
 // fragment; "split": the two halves of a composite field's selection instead of two copies.
 var selfTwinForms = []string{"direct-orig", "direct-copy", "inl-orig", "inl-copy", "frag-orig", "frag-copy", "split-orig", "split-copy"}
+
+// negMenu: NEGATIVE number literals (direct / in a list / in an input object / as a
+// directive argument) on a new root selection `t(...)`, written in the operation ("plain",
+// the class root) or inside an inline fragment / a named fragment / a nested named
+// fragment (the value copiers of fragment inlining).
+type negEntry struct {
+	Args  []Arg
+	Tag   *Val // @tag(n: <value>) on the field
+	Class string
+}
+
+func vRaw(s string) Val { return Val{K: 'i', S: s} }
+
+var negMenu = []negEntry{
+	{Args: []Arg{{"i", vRaw("-5")}}, Class: "negative int literal as argument"},
+	{Args: []Arg{{"l", vList(vRaw("-1"), vInt(2))}}, Class: "negative int literal in a list"},
+	{Args: []Arg{{"ll", vList(vList(vRaw("-1")))}}, Class: "negative int literal in a nested list"},
+	{Args: []Arg{{"ol", vList(vObj("r", vRaw("-10"), "ll", vList(vList(vRaw("-3")))))}}, Class: "negative int literal in an input object"},
+	{Args: []Arg{{"fl", vRaw("-1.5")}}, Class: "negative float literal as argument"},
+	{Args: []Arg{{"fl", vRaw("-2")}}, Class: "negative int literal at a Float position"},
+	{Args: []Arg{{"i", vInt(1)}}, Tag: &Val{K: 'i', S: "-3"}, Class: "negative int literal as directive argument"},
+}
+
+var negForms = []string{"plain", "inl", "frag", "nested"}
 
 // absFragForms: `... on I { id ... on A { zk: k } ... on B { b } }` (inline / named fragment,
 // on the interface I / on the union U, both orders of the nested fragments), simplest first.
@@ -739,6 +769,42 @@ func apply(op *Op, d Dec) bool {
 		default:
 			return false
 		}
+		return true
+	case "neg":
+		if d.Val >= len(negMenu) {
+			return false
+		}
+		for _, c := range op.Sel {
+			if c.K == 'f' && c.Alias == "" && c.Name == "t" {
+				return false
+			}
+		}
+		e := negMenu[d.Val]
+		n := &Node{ID: op.newID(), K: 'f', Name: "t", Args: append([]Arg(nil), e.Args...)}
+		if e.Tag != nil {
+			n.Dirs = []Dir{{N: "tag", A: "n", If: *e.Tag}}
+		}
+		w := n
+		var nf []Frag
+		switch d.Form {
+		case "plain":
+		case "inl":
+			w = &Node{ID: op.newID(), K: 'i', HasCond: true, Cond: "Query", Sel: []*Node{n}}
+		case "frag":
+			name := fmt.Sprintf("F%d", len(op.Frags)+1)
+			w = &Node{ID: op.newID(), K: 's', Name: name}
+			nf = append(nf, Frag{N: name, Cond: "Query", Sel: []*Node{n}})
+		case "nested":
+			n1 := fmt.Sprintf("F%d", len(op.Frags)+1)
+			n2 := fmt.Sprintf("F%d", len(op.Frags)+2)
+			w = &Node{ID: op.newID(), K: 's', Name: n1}
+			in := &Node{ID: op.newID(), K: 's', Name: n2}
+			nf = append(nf, Frag{N: n1, Cond: "Query", Sel: []*Node{in}}, Frag{N: n2, Cond: "Query", Sel: []*Node{n}})
+		default:
+			return false
+		}
+		op.Sel = append(append([]*Node(nil), op.Sel...), w)
+		op.Frags = append(op.Frags, nf...)
 		return true
 	case "twin":
 		if d.Val >= len(twinMenu) {
@@ -1167,6 +1233,11 @@ func (d Dec) canon() string {
 			return "form" // differs from var / shared only in the variable name
 		}
 		return "self"
+	case "neg":
+		if d.Form != "plain" {
+			return "form" // differs from the plain spelling only in fragment structure
+		}
+		return "self"
 	}
 	return "self"
 }
@@ -1181,6 +1252,9 @@ func (d Dec) residue() (Dec, bool) {
 		r.Form = "lit"
 		if d.Kind == "tag" {
 			r.Form = strings.TrimRight(d.Form, "AZ")
+		}
+		if d.Kind == "neg" {
+			r.Form = "plain"
 		}
 		return r, true
 	}
